@@ -21,8 +21,8 @@ import (
 	"golang.org/x/tools/go/analysis"
 
 	"verifharness/internal/common"
-	"verifharness/internal/userrules"
 	"verifharness/internal/coqfmt"
+	"verifharness/internal/userrules"
 )
 
 // ---------- analyzer passes in-process ----------
@@ -295,6 +295,19 @@ func faultMatrix(meta *common.Meta, tier string, outDir string) int {
 	if tier == "quick" {
 		counts = []int{1, 3}
 	}
+	type mjob struct {
+		f    fault
+		n    int
+		exe  string
+		isAn bool
+		args []string
+		env  []string
+		to   time.Duration
+		out  string
+		code int
+		err  error
+	}
+	var mjobs []*mjob
 	for _, f := range faults {
 		for _, n := range counts {
 			pkgs := []string{"./p1", "./p2", "./p3"}[:n]
@@ -322,7 +335,31 @@ func faultMatrix(meta *common.Meta, tier string, outDir string) int {
 				if f.timeout != 0 {
 					to = f.timeout
 				}
-				out, code, err := common.Run(to, base, env, filepath.Join(bin, exe), args...)
+				mjobs = append(mjobs, &mjob{f: f, n: n, exe: exe, isAn: isAn, args: args, env: env, to: to})
+			}
+		}
+	}
+	// the runs are independent processes: a pool of six runs them, the verdicts are taken in matrix order
+	{
+		sem := make(chan struct{}, 6)
+		done := make(chan struct{})
+		for _, j := range mjobs {
+			j := j
+			go func() {
+				sem <- struct{}{}
+				j.out, j.code, j.err = common.Run(j.to, base, j.env, filepath.Join(bin, j.exe), j.args...)
+				<-sem
+				done <- struct{}{}
+			}()
+		}
+		for range mjobs {
+			<-done
+		}
+	}
+	for _, j := range mjobs {
+		{
+			{
+				f, n, exe, isAn, args, out, code, err := j.f, j.n, j.exe, j.isAn, j.args, j.out, j.code, j.err
 				runs++
 				if err != nil {
 					meta.Fail("C19/cli/hang:"+strings.Split(f.name, "+")[0], fmt.Sprintf("%s %v does not finish under an invalid configuration: %v", exe, args, err), map[string]interface{}{"exe": exe, "args": args, "packages": n})
@@ -428,7 +465,15 @@ Definition cases : list (cli_config * cli_outcome) := [
 		"two-test-suffix-packages": {"unslice/a.go": "package checker_test\n\nfunc F(IN int) int { return IN }\n", "underef/a.go": "package checker_test\n\nfunc G(IN int) int { return IN }\n"},
 		// ill-typed declaration and assignment forms (the walkers index Lhs/Rhs/Names/Values by position)
 		"assignment-mismatch": {"a.go": "package b\n\nfunc pair() (int, int) { return 1, 2 }\n\nfunc F(IN int) int {\n\ta, b, c := pair(), IN\n\tvar d, e = pair(), IN, 3\n\tvar f, g int = 1\n\tx, y := 1\n\tvar h, i = <-make(chan int), 2, 3\n\ta, b = pair(), 1, 2\n\treturn a + b + c + d + e + f + g + x + y + h + i\n}\n"},
-		"undefined-names":                 {"a.go": "package b\n\nfunc F(IN int) int { x := undefinedFn(IN); return x.y[0] }\n\nfunc H(s string) bool { return len(s) == 0 }\n"},
+		// syntax errors INSIDE import declarations: go/parser leaves ImportSpecs with a nil or empty Path
+		"import-bare-identifier":       {"a.go": "package b\n\nimport foo\n\nfunc F(IN int) int { return IN }\n"},
+		"import-group-bare-identifier": {"a.go": "package b\n\nimport (\n\t\"fmt\"\n\tfoo\n\t\"fmt\"\n)\n\nfunc F(IN int) { fmt.Println(IN) }\n"},
+		"import-number-literal":        {"a.go": "package b\n\nimport 42\n\nfunc F(IN int) int { return IN }\n"},
+		"import-unterminated-string":   {"a.go": "package b\n\nimport \"fmt\n\nfunc F(IN int) int { return IN }\n"},
+		"import-alias-without-path":    {"a.go": "package b\n\nimport (\n\tf\n\t. \n\t_ \"os\"\n)\n\nfunc F(IN int) int { return IN }\n"},
+		"import-after-declaration":     {"a.go": "package b\n\nfunc F(IN int) int { return IN }\n\nimport \"fmt\"\n\nimport fmt2\n"},
+		"import-raw-and-rune-literals": {"a.go": "package b\n\nimport (\n\t`fmt`\n\t'x'\n\t\"\"\n)\n\nfunc F(IN int) { fmt.Println(IN) }\n"},
+		"undefined-names":              {"a.go": "package b\n\nfunc F(IN int) int { x := undefinedFn(IN); return x.y[0] }\n\nfunc H(s string) bool { return len(s) == 0 }\n"},
 	}
 	for name, files := range broken {
 		dir := filepath.Join(base, "broken", name)
@@ -459,6 +504,11 @@ Definition cases : list (cli_config * cli_outcome) := [
 			}
 		}
 	}
+	runs += targetStage(meta, tier, base, bin, outDir)
+	runs += ruleFaultStage(meta, tier, base, rdir, bin)
+	runs += profileStage(meta, base, bin)
+	runs += crashStage(meta, tier, base, rdir, bin, outDir)
+	runs += dispatchStage(meta, tier, base, bin, outDir, common.NewRand(1, "c19-dispatch"))
 	meta.Distribution["binary_runs"] = runs
 	return runs
 }
